@@ -463,7 +463,7 @@ func c18Inferable(r *core.Run, rng *rand.Rand) {
 	p1, p2 := rng.Intn(10), rng.Intn(10)
 	enumA := "Enum8('a' = 1, 'b' = 2, 'c' = 3)"
 	enumB := "Enum8('x' = 1, 'y' = 2, 'z' = 3)"
-	enumC := `Enum8('tab\tsep' = 1, 'C:\\dir' = 2, 'it\'s' = 3)`
+	enumC := `Enum8('tab\tsep' = 1, 'C:\\dir' = 2, 'it\'s' = 3, 'Doe, John' = 4, 'k = v,  w' = 5)`
 	type tc struct {
 		name   string
 		types  []string // successive block types
